@@ -274,9 +274,11 @@ def show(s):
     return " ".join(out)
 
 
-def rule_t4(ck, prog, S, model):
+def rule_t4(ck, prog, S, model, only=None):
     spec = K.load_spec("char_classes.json")
     for name, expr in spec["predicates"].items():
+        if only is not None and name not in only:
+            continue
         f = prog.fn(name)
         if f is None:
             continue      # helper not present (inlined / replaced): its uses are covered by the advance-guard sets
@@ -302,7 +304,7 @@ def rule_t4(ck, prog, S, model):
             for q in ((34, 39) if "Q" in ex else (None,)):
                 universe.append(CS.parse_class(ex, q))
     for name, exprs in spec["advance_guards"].items():
-        if name.startswith("_"):
+        if name.startswith("_") or (only is not None and name not in only):
             continue
         f = prog.fn(name)
         if f is None:
@@ -349,6 +351,8 @@ def rule_t4(ck, prog, S, model):
                     okall = False
             if not okall:
                 break
+    if only is not None:
+        return
     # every other lexer function that advances under a character test must use one of the known classes
     # (or a single character given as parameter)
     for f in sorted(prog.functions.values(), key=lambda f_: f_.line):
